@@ -107,4 +107,22 @@ class G(Generic[T]):
 def k(a: int = 1, b: str = 's', c: float = -1.5, d: 'G[int] | None' = None) -> G[int]:
 	return G[int]()
 ''',
+# adjacent single children whose tags extend each other textually (list / list_comp, dict / dict_comp), in both orders
+'src.zoo_prefix': '''def lc(ns: list[int]) -> tuple[list[int], list[int]]:
+	return [], [n for n in ns]
+
+
+def dc(ns: list[int]) -> tuple[dict[int, int], dict[int, int]]:
+	return {}, {n: n for n in ns}
+
+
+def cl(ns: list[int]) -> tuple[list[int], list[int]]:
+	a, b = [n for n in ns], [1, 2]
+	c, d = {1: 2}, {n: n for n in ns}
+	return [n for n in ns], []
+
+
+def wide(p0: int, p1: int, p2: int, p3: int, p4: int, p5: int, p6: int, p7: int, p8: int, p9: int, p10: int, p11: int, p12: int) -> int:
+	return max(p0, p1, p2, p3, p4, p5, p6, p7, p8, p9, p10, p11, p12)
+''',
 }
